@@ -15,22 +15,16 @@ import vlib
 
 LEVEL = "proof"
 MODEL_FIELDS = ("rc", "binn", "back", "back0", "bcl", "bclp", "ncl", "p", "t", "t2", "b", "b2", "jt", "jb", "ser", "again", "c")
-# flag sets of the `pr` query: PRETTY = 1, CODEPOINTS = 2, PRETTY_INDENT2 = 5, PRETTY_INDENT4 = 9
+# flag sets of the `pr` query: PRETTY = 1, CODEPOINTS = 2, PRETTY_INDENT2 = 5, PRETTY_INDENT4 = 9.  Tree and binary form must print
+# the same text under EVERY one of them (C14_print_agree; the library ignored the indentation bits until d42c39c) - judged.
 PR_FLAGS = (0, 1, 2, 3, 5, 7, 9, 11)
-PR_INDENT1 = (0, 1, 2, 3)
-# jbl_as_json ignores JBL_PRINT_PRETTY_INDENT2 / _INDENT4 (the tree printer honours them): a defect of the unmodified library
-# found by C14_print_agree_refuted (notes/jbinn.md, fixes/jbinn-print-indent.diff).  Measured and counted; judged as a violation
-# only with VERIF_C14_JUDGE_INDENT=1 (the deepening round had to exit 0 on the unchanged tree)
+# jbl_ptr_serialize writes '~' and '/' inside a segment back unescaped (defect 6, notes/jbinn.md): a pointer utility outside the
+# statement of C14 - measured and counted; judged only with VERIF_C14_JUDGE_OPEN=1
 JUDGE_OPEN = os.environ.get("VERIF_C14_JUDGE_OPEN") == "1"
-JUDGE_INDENT = JUDGE_OPEN or os.environ.get("VERIF_C14_JUDGE_INDENT") == "1"
-# jbl_clone_into_pool copies the whole binn struct: the clone of a writable document stays writable and keeps the SOURCE's
-# write buffer (pbuf) - a write to the clone lands in the source, a write to the source shows up in the clone; a defect of the
-# unmodified library (notes/jbinn.md, fixes/jbinn-clone-into-pool-alias.diff).  The harness reports it as ALIAS and disarms
-# it; measured and counted, judged only with VERIF_C14_JUDGE_CLONEP=1 (or VERIF_C14_JUDGE_OPEN=1)
-JUDGE_CLONEP = JUDGE_OPEN or os.environ.get("VERIF_C14_JUDGE_CLONEP") == "1"
+# clone independence (indc / indp cells): a clone that still writes into the buffer of its source (jbl_clone_into_pool until
+# 3cda5bf; the harness reports ALIAS and disarms it) is a violation
 IND_KINDS = ("S.node", "S.buf", "S.set", "S.setr", "S.json")
-KNOWN_FIX = {"jbl_ptr_serialize-unescaped": "jbinn-ptr-serialize-escape.diff", "jbl_as_json-ignores-indent": "jbinn-print-indent.diff", "jbl_clone_into_pool-shares-pbuf": "jbinn-clone-into-pool-alias.diff",
-             "jbn_get-borrowed-keys": "jbinn-get-borrowed-keys.diff"}
+KNOWN_FIX = {"jbl_ptr_serialize-unescaped": "jbinn-ptr-serialize-escape.diff", "jbn_get-borrowed-keys": "jbinn-get-borrowed-keys.diff"}
 
 
 # ------------------------------------------------------------------------------------------------ values and dumps
@@ -787,11 +781,8 @@ def judge_independence(doc, ans, fname):
         return "%s failed (%s)" % (fname, ans)
     alias = ans.startswith("ALIAS:")
     if alias:
-        ans = ans[6:]
-        KNOWN_HITS["jbl_clone_into_pool-shares-pbuf"] = KNOWN_HITS.get("jbl_clone_into_pool-shares-pbuf", 0) + 1
-        if fname != "jbl_clone_into_pool" or JUDGE_CLONEP:
-            return ("the clone made by %s is writable and writes into the buffer of its source: changing one document changes "
-                    "the other (the harness disarmed it to go on)" % fname)
+        return ("the clone made by %s is writable and writes into the buffer of its source: changing one document changes "
+                "the other (the harness disarmed it to go on)" % fname)
     try:
         r1, r2, rest = ans.split(":", 2)
         d1, s1, d2 = rest.split(",")
@@ -1049,8 +1040,11 @@ def oracle(query, out):
             bad += ptr_oracle(path, f)
             if f.get("again") == "other" or f.get("again") == "PTR":
                 # jbl_ptr_serialize writes '~' and '/' inside a segment back unescaped: the text denotes another pointer or none.
-                # A pointer utility outside the statement of C14: measured, never judged (notes/jbinn.md, fixes/jbinn-ptr-serialize-escape.diff)
+                # A pointer utility outside the statement of C14: measured; judged only with VERIF_C14_JUDGE_OPEN=1 (notes/jbinn.md, fixes/jbinn-ptr-serialize-escape.diff)
                 KNOWN_HITS["jbl_ptr_serialize-unescaped"] = KNOWN_HITS.get("jbl_ptr_serialize-unescaped", 0) + 1
+                if JUDGE_OPEN:
+                    bad.append("jbl_ptr_serialize of the parsed pointer gives %s, which %s" % (
+                        f.get("ser"), "is refused by jbl_ptr_alloc" if f.get("again") == "PTR" else "parses to another pointer"))
         elif q[0] == "pcmp":
             p1, p2 = (b"" if x == "-" else bytes.fromhex(x) for x in q[1:3])
             t1, t2 = rfc_parse(p1), rfc_parse(p2)
@@ -1098,20 +1092,9 @@ def oracle(query, out):
                 t, b = f.get("t%d" % pf), f.get("b%d" % pf)
                 if t is None or b is None:
                     bad.append("print flags %d: a printer gave no answer" % pf)
-                elif pf in PR_INDENT1:
-                    if t != b:
-                        bad.append("tree and binary form print different texts under print flags %d: %s vs %s" % (pf, t[:120], b[:120]))
-                elif t == b:
-                    pass            # a library with fixes/jbinn-print-indent.diff applied
-                elif b == f.get("t%d" % (pf & 3)):
-                    # the binary printer ignores the indentation bits: its text is the tree's text under pf & 3 (known defect)
-                    KNOWN_HITS["jbl_as_json-ignores-indent"] = KNOWN_HITS.get("jbl_as_json-ignores-indent", 0) + 1
-                    if JUDGE_INDENT:
-                        bad.append("tree and binary form print different texts under print flags %d (JBL_PRINT_PRETTY_INDENT%d): "
-                                   "%s vs %s" % (pf, 2 if pf & 4 else 4, t[:120], b[:120]))
-                else:
-                    bad.append("binary form under print flags %d: neither the tree's text under %d nor under %d: %s" % (
-                        pf, pf, pf & 3, b[:120]))
+                elif t != b:
+                    bad.append("tree and binary form print different texts under print flags %d%s: %s vs %s" % (
+                        pf, " (JBL_PRINT_PRETTY_INDENT%d)" % (2 if pf & 4 else 4) if pf & 12 else "", t[:120], b[:120]))
         elif q[0] == "dec":
             exp = binn_value(q[1])
             if in_scope(exp) and f.get("rc") == "0" and not veq(exp, parse_dump(f["back"])):
@@ -1371,7 +1354,7 @@ def check(run):
             run.notes.append("matrix cells not exercised in this run: " + ", ".join(empty[:20]))
     for k, n in KNOWN_HITS.items():
         run.dist("known-defect " + k, n)
-        judged = (k.startswith("jbl_as_json") and JUDGE_INDENT) or (k.startswith("jbl_clone_into_pool") and JUDGE_CLONEP)
+        judged = k.startswith("jbl_ptr_serialize") and JUDGE_OPEN
         run.notes.append("known defect of the unmodified library, measured in %d answers and %s: %s (notes/jbinn.md, fixes/%s)" % (
             n, "judged" if judged else "not judged", k, KNOWN_FIX.get(k, "?")))
     if mism:
